@@ -198,13 +198,24 @@ def run(chk: Check):
         n = 5
         check_cfg(chk, cfg, n, [[(1, "restore")] * (n - 1) + [(1, "end")], [(2, "restore"), (n - 2, "end")]], "loss_options")
     # explicit checkpoints only (no saving folder), several batches between two of them, the same folder all along
-    for i in range(2 if chk.tier == "quick" else 20):
+    for i in range(3 if chk.tier == "quick" else 21):
         cfg = gen_cfg(rng, k_samplers=rng.randint(2, 4))
         cfg["explicit_checkpoints"] = True
         n = rng.randint(6, 9)
         comps = []
         first_cut_min = 1
-        if i % 2 == 0:
+        if i % 3 == 2:
+            # the folder holds the checkpoint of a NEAR-TWIN calibration: same seed, same model and loss, the same line-up of history-free samplers except for the
+            # second one. Its series file agrees with this run's on the first row and on the last sixteen rows of its five batches (22 rows) - and nowhere in between
+            mid_a, mid_b = rng.sample(["RandomUniformSampler", "HaltonSampler", "RSequenceSampler"], 2)
+            cfg["lineup"] = [("HaltonSampler", 4, None), (mid_a, 2, None), ("RSequenceSampler", 6, None), ("HaltonSampler", 6, None), ("RandomUniformSampler", 4, None)]
+            cfg["loss"] = rng.choice(["minkowski", "msm"])
+            cfg["leftover"] = {**copy.deepcopy(cfg), "lineup": [cfg["lineup"][0], (mid_b, 2, None)] + cfg["lineup"][2:], "batches": 5}
+            cfg["leftover"].pop("explicit_checkpoints")
+            n = rng.randint(7, 9)
+            first_cut_min = 5
+            chk.count("explicit_checkpoints:folder_holds_a_near-twin_calibration")
+        elif i % 2 == 0:
             # the folder given to create_checkpoint() already holds the checkpoint of another calibration with the same shapes but another
             # loss function (same class with another option, or another class), and this run's first checkpoint is taken after >= 2 batches
             cfg["loss"] = rng.choice(["minkowski", "msm", "minkowski_p1"])
@@ -214,10 +225,10 @@ def run(chk: Check):
             first_cut_min = 2
             chk.count("explicit_checkpoints:folder_holds_another_calibration")
         for _ in range(2):
-            cuts = sorted(rng.sample(range(first_cut_min, n), rng.randint(2, 3)))
+            cuts = sorted(rng.sample(range(first_cut_min, n), min(rng.randint(2, 3), n - first_cut_min)))
             seg, prev = [], 0
-            for cpt in cuts:
-                seg.append((cpt - prev, rng.choice(["restore", "restore", "live"]))); prev = cpt
+            for ci_, cpt in enumerate(cuts):
+                seg.append((cpt - prev, "restore" if (ci_ == 0 and first_cut_min >= 5) else rng.choice(["restore", "restore", "live"]))); prev = cpt
             seg.append((n - prev, "end"))
             comps.append(seg)
         check_cfg(chk, cfg, n, comps, "explicit_checkpoints")
